@@ -37,7 +37,17 @@ RULE = (
     "with f > 0; coordinates/times other than 0 / midnight.  mode_flags: the boundary lists, strided sweeps, all p=1 "
     "fractions and the structured p=2/3 fractions x all integer parts, strided p=2 / p=3 fractions, strided coordinates and "
     "date-times, plus Hypothesis cases, each evaluated with MBXML.DEBUG = True / after from_bytes(malformed, debug=True) "
-    "raised / after from_bytes(valid, debug=True) / (coordinates, times) inside from_bytes(debug=True)."
+    "raised / after from_bytes(valid, debug=True) / (coordinates, times) inside from_bytes(debug=True).  histories: sequences of "
+    "judged steps (the clauses of the six value sub-checks) and stimulus steps (valid sibling calls, rightly refused calls: "
+    "negative / too large / wrong type / precision 0 / truncated octets / damaged documents) on SHARED magnitudes: for every "
+    "boundary magnitude (0..130, first septet 01/3F/40/41/7F x 2..5 septets, 2^k-1/2^k/2^k+1, limits, seeded members of every "
+    "class) the list [unsigned, +m, -m, m as integer part of an unsigned / positive / negative float, the same fraction number "
+    "under another precision, three refused calls] followed by itself (every ordered pair of kinds of step), related magnitudes "
+    "(bit 6 of the first septet toggled, one septet more / less, +1), the same number through the latitude and the longitude "
+    "writer in both orders, one instant in the three date forms; Hypothesis histories of 2..12 steps over a pool of 1..3 related "
+    "magnitudes; each history is judged in a process of its own that starts from a freshly imported library.  Preludes (framework: every 8th held case is judged "
+    "again after them): the case's value, its negation, magnitude and integer part through every sibling writer / reader, as "
+    "token value through MBXML.from_bytes / as_bytes / as_xml, and through refused variants of the same calls."
 )
 ASSUMPTIONS = [
     "canonical forms per vp/refs/mbxml_ref.py: uintvar = shortest base-128 big-endian with continuation bit 0x80; sintvar = "
@@ -530,6 +540,10 @@ def drv_latlon(ctx: Ctx, sub: SubCheck):
             for a in EDGE_LAT:
                 for o in EDGE_LON:
                     yield {"lat": a, "lon": o}, ("lat90" if a == LAT_MAX else "edge"), (a > 0 or o > 0)
+            # the same number as latitude and as longitude (both writers on one value)
+            for a in EDGE_LAT + [12345678, 33333333, 60000000, 77777777]:
+                if a not in EDGE_LON:
+                    yield {"lat": a, "lon": a}, "same_number_twice", a > 0
 
     _enum(ctx, sub, oracle_latlon, [("strided", lo, min(n, lo + per)) for lo in range(0, n, per)] + [("edges",)], expand)
 
@@ -768,6 +782,386 @@ def drv_mode_flags(ctx: Ctx, sub: SubCheck):
     ctx.shards(hyp, list(range(ctx.pick(16, 80))))
 
 
+# ---------------------------------------------------------------------------------------------- siblings (round 7)
+#
+# The sub-checks above judge one entry point on one value at a time, so a worker process that sweeps write_uintvar never
+# calls write_sintvar on the same magnitude and vice versa.  State shared by sibling entry points - a memo of the septet
+# list keyed on the magnitude that the signed writer edits in place, a fraction memo keyed without the precision, a
+# coordinate memo shared by the latitude and the longitude writer, a register a rightly refused call leaves dirty - only
+# shows when the SAME value went through the sibling first.  Two mechanisms:
+#   prelude_for   (stimulus for the framework's "judge again after a prelude"): the case's own value, its negation, its
+#                 integer part and its magnitude through every sibling writer / reader, through MBXML.as_bytes /
+#                 from_bytes as token values, and through rightly refused variants of the same calls;
+#   histories     (sub-check) sequences of judged steps (the clauses of the sub-checks above) and stimulus steps on shared
+#                 magnitudes, every ordered pair of kinds of step on every boundary magnitude; judged in a process of its
+#                 own (vp/isolate.py), so a failing history is self-contained.
+
+
+def _arg(x):
+    if isinstance(x, dict) and "hex" in x:
+        return bytes.fromhex(x["hex"])
+    if isinstance(x, dict) and "dt" in x:
+        return datetime(*x["dt"])
+    return x
+
+
+_SIBLING_FNS = ("write_uintvar", "write_sintvar", "write_ufloatvar", "write_sfloatvar", "write_fraction", "read_uintvar", "read_sintvar", "read_ufloatvar", "read_sfloatvar",
+                "read_uint8", "read_opaque", "read_opaque_defined_size", "write_latitude", "write_longitude", "write_infotime")
+
+
+def _op_call(a):
+    """{fn: name of an MBXML reader / writer, args: [...]} - bytes as {hex}, date-times as {dt: [Y, M, D, h, m, s]}"""
+    if a["fn"] in _SIBLING_FNS:
+        getattr(MB(), a["fn"])(*[_arg(x) for x in a["args"]])
+
+
+def _op_doc(a):
+    """{hex, debug?}: parse a buffer, serialise and render every document"""
+    M = MB()
+    try:
+        for d in M.from_bytes(bytes.fromhex(a["hex"]), bool(a.get("debug", False))):
+            M.as_bytes(d)
+            d.as_xml()
+            repr(d)
+    finally:
+        M.DEBUG = False
+
+
+PRELUDE_OPS = {"call": _op_call, "doc": _op_doc}
+
+
+def _C(fn, *args):
+    return {"x": "call", "a": {"fn": fn, "args": [({"hex": x.hex()} if isinstance(x, (bytes, bytearray)) else x) for x in args]}}
+
+
+def _doc_with(tokens: bytes, doc_id: int = REPORT_DOC_ID, debug: bool = False):
+    return {"x": "doc", "a": {"hex": (bytes([doc_id]) + R.uintvar(len(tokens)) + tokens).hex(), "debug": debug}}
+
+
+def int_sibling_calls(m: int, f: int = 64, p: int = 1):
+    """(valid sibling calls, rightly refused / damaged variants) for the magnitude m: every writer and reader of MBXML on
+    +-m, on m as integer part of a float, and on documents that carry m as a token value"""
+    ok, refused = [], []
+    frac = f / 128**p
+    if 0 <= m <= U_MAX:
+        ok += [_C("write_uintvar", m), _C("write_ufloatvar", float(m) + frac, p), _C("write_ufloatvar", float(m), 1), _C("read_uintvar", R.uintvar(m), 0),
+               _C("read_sintvar", R.uintvar(m), 0), _C("read_ufloatvar", R.ufloat_bytes(m, f, p), 0), _C("read_sfloatvar", R.ufloat_bytes(m, f, p), 0),
+               _doc_with(bytes([0x36]) + R.uintvar(m)), _doc_with(bytes([0x6C]) + R.ufloat_bytes(m, f % 128, 1)), _doc_with(bytes([0x31]) + R.uintvar(m), 0x05)]
+        if m <= 300:
+            ok.append(_doc_with(bytes([0x22]) + R.uintvar(m) + bytes(m), 0x0B))
+        if m <= 255:
+            ok.append(_doc_with(bytes([0x56, m])))
+    if 0 <= m <= S_MAX:
+        for neg in (False, True):
+            v = -m if neg else m
+            ok += [_C("write_sintvar", v), _C("read_sintvar", R.sintvar(v), 0), _C("read_uintvar", R.sintvar(v), 0)]
+            if m or f:
+                x = R.float_value(m, f, p, neg)
+                ok += [_C("write_sfloatvar", x, p), _C("read_sfloatvar", R.sfloat_bytes(m, f, p, neg), 0), _doc_with(bytes([0x70]) + R.sfloat_bytes(m, f % 128, 1, neg)),
+                       _doc_with(bytes([0x69]) + bytes(8) + R.sfloat_bytes(m, f % 128, 1, neg))]
+        ok.append(_C("write_sintvar", 0, m % 2 == 1))  # the negative-zero form of the signed writer
+    ok += [_C("write_fraction", f, p), _C("write_fraction", f, p % 3 + 1), _C("write_fraction", (f * 128) % 128**3, 3), _C("write_fraction", m % 128, 1)]
+    refused += [_C("write_uintvar", -m - 1), _C("write_uintvar", m + 2**32), _C("write_sintvar", m + 2**31), _C("write_sintvar", -(m + 2**31)), _C("write_ufloatvar", float(m) + frac, 0),
+                _C("write_sfloatvar", float(m) + frac, 0), _C("write_ufloatvar", -float(m) - 0.5, 1), _C("write_uintvar", None), _C("write_sintvar", "1"),
+                _C("read_uintvar", (R.uintvar(m % (U_MAX + 1))[:-1] or b"") + b"\x80", 0), _C("read_sintvar", b"\xc0", 0), _C("read_ufloatvar", R.uintvar(m % (U_MAX + 1)), 0),
+                _C("read_uintvar", R.uintvar(m % (U_MAX + 1)), 7), _doc_with(bytes([0x36]) + R.uintvar(m % (U_MAX + 1))[:-1] + b"\x80"), _doc_with(bytes([0x36]) + R.uintvar(m % (U_MAX + 1)), 0x0B, True),
+                _doc_with(bytes([0x70]) + b"\xc0", debug=True)]
+    return ok, refused
+
+
+def _lat4(micro: int) -> bytes:
+    return (min(2**31 - 1, micro * 2**31 // (90 * 10**6)) & 0xFFFFFFFF).to_bytes(4, "big")
+
+
+def _lon4(micro: int) -> bytes:
+    return ((micro * 2**32 // (360 * 10**6)) & 0xFFFFFFFF).to_bytes(4, "big")
+
+
+def latlon_sibling_calls(lat: int, lon: int):
+    a, o = lat / 10**6, lon / 10**6
+    ok = [_C("write_longitude", a), _C("write_latitude", a), _C("write_longitude", o), _C("write_latitude", (lon % (LAT_MAX + 1)) / 10**6), _C("write_latitude", 90.0), _C("write_longitude", 0.0),
+          _C("write_latitude", round(90.0 - a, 6)), _C("write_longitude", round((o + 180.0) % 360.0, 6)),
+          _doc_with(bytes([POINT_2D]) + _lon4(lon)[:4] + _lat4(lat)), _doc_with(bytes([POINT_2D]) + _lat4(lat) + _lon4(lon), debug=True),
+          _doc_with(bytes([0x51]) + _lat4(lat) + _lon4(lon) + b"\x05\x00"), _doc_with(bytes([0x69]) + _lat4(lat) + _lon4(lon) + b"\x45\x40")]
+    refused = [_C("write_latitude", -a - 0.000001), _C("write_longitude", -o - 0.000001), _C("write_latitude", 180.0 + a), _C("write_longitude", 360.0 + o), _C("write_latitude", None),
+               _C("write_longitude", "1.0"), _C("write_latitude", float("nan")), _doc_with(bytes([POINT_2D]) + _lat4(lat) + _lon4(lon)[:3])]
+    return ok, refused
+
+
+def _time5(dt) -> bytes:
+    y, mo, d, h, mi, s_ = dt
+    return (y * 2**26 + mo * 2**22 + d * 2**17 + h * 2**12 + mi * 2**6 + s_).to_bytes(5, "big")
+
+
+def infotime_sibling_calls(dt, form):
+    y, mo, d, h, mi, s_ = dt
+    text = "%04d%02d%02d%02d%02d%02d" % tuple(dt)
+    ok = [_C("write_infotime", {"dt": list(dt)}), _C("write_infotime", text), _C("write_infotime", int(text)), _C("write_infotime", "%04d%02d%02d%02d%02d%02d" % (y, mo, d, s_ % 24, mi, h)),
+          _C("write_infotime", {"dt": [2000 + (y + 1) % 100, mo, min(d, 28), h, mi, s_]}), _doc_with(bytes([INFO_TIME]) + _time5(dt)), _doc_with(bytes([0x35]) + _time5(dt), debug=True)]
+    refused = [_C("write_infotime", text[:13]), _C("write_infotime", text + "0"), _C("write_infotime", "%04d%02d%02d%02d%02d%02d" % (y, 13, d, h, mi, s_)), _C("write_infotime", "%04d0230%02d%02d%02d" % (y, h, mi, s_)),
+               _C("write_infotime", int(text[2:])), _C("write_infotime", None), _C("write_infotime", float(int(text))), _C("write_infotime", text.encode().hex()),
+               _doc_with(bytes([INFO_TIME]) + _time5(dt)[:4])]
+    return ok, refused
+
+
+def _sibling_calls(sub, case):
+    """(valid, refused) sibling calls derived from a case of sub-check `sub`"""
+    if sub == "mode_flags":
+        return _sibling_calls(case["sub"], case["case"])
+    if sub in ("uintvar", "sintvar"):
+        m = abs(case["v"])
+        ok, refused = int_sibling_calls(m, f=(m * 37 + 5) % 128**2 or 1, p=2)
+        for rel in (m ^ 0x40, m >> 7, (m << 7) & U_MAX, m ^ (0x40 << (7 * (R.n_uint_septets(m) - 1)))):
+            if rel != m:
+                o2, _ = int_sibling_calls(rel, f=1, p=1)
+                ok += o2[:6] + o2[-8:-4]
+        return ok, refused
+    if sub in ("ufloatvar", "sfloatvar"):
+        i, f, p = case["i"], case["f"], case["p"]
+        ok, refused = int_sibling_calls(i, f, p)
+        for p2 in (1, 2, 3):
+            if p2 != p:
+                f2 = f * 128 ** (p2 - p) if p2 > p else f // 128 ** (p - p2)
+                o2, _ = int_sibling_calls(i, f2, p2)
+                ok += [c for c in o2 if c["x"] == "call" and ("float" in c["a"]["fn"] or "fraction" in c["a"]["fn"])]
+        return ok, refused
+    if sub == "latlon":
+        return latlon_sibling_calls(case["lat"], case["lon"])
+    if sub == "infotime":
+        return infotime_sibling_calls(case["dt"], case["form"])
+    return [], []
+
+
+def prelude_for(sub, case, rng):
+    if sub == "histories":
+        return []
+    ok, refused = _sibling_calls(sub, case)
+    calls = rng.sample(ok, min(len(ok), 9)) + rng.sample(refused, min(len(refused), 3))
+    rng.shuffle(calls)
+    return calls
+
+
+# ---- histories
+
+
+def _oracle_histories(case):
+    """case = {steps: [{sub, case} (judged by the clauses of that sub-check) | {x, a} (stimulus: PRELUDE_OPS), ...]}"""
+    base = _base_oracles()
+    steps = case["steps"]
+    for n, st_ in enumerate(steps):
+        if "x" in st_:
+            try:
+                PRELUDE_OPS[st_["x"]](st_["a"])
+            except Exception:
+                pass  # stimulus only: rightly refused calls raise, whatever a valid sibling call returns is not judged here
+            continue
+        try:
+            base[st_["sub"]](st_["case"])
+        except Fail as f:
+            raise Fail(f.clause + "__in_history", {"step": n, "of": len(steps), "judged": st_, "observed": f.observed}, f.expected, klass=st_["sub"] + (":" + f.klass if f.klass else ""))
+
+
+from vp.isolate import isolated  # noqa: E402
+
+oracle_histories = isolated(_oracle_histories, warm=MB)
+
+
+def _J(sub, **case):
+    return {"sub": sub, "case": case}
+
+
+def judged_steps(m: int, f: int, p: int):
+    """the judged kinds of step on magnitude m: unsigned, +m, -m, m as integer part of an unsigned / positive / negative float"""
+    lead, trail = _lt(m)
+    out = []
+    if m <= U_MAX:
+        out += [_J("uintvar", v=m, lead=lead, trail=trail), _J("ufloatvar", i=m, f=f, p=p, trail=trail)]
+    if m <= S_MAX:
+        out += [_J("sintvar", v=m, lead=lead, trail=trail), _J("sfloatvar", i=m, f=f, p=p, neg=False, trail=trail)]
+        if m:
+            out.append(_J("sintvar", v=-m, lead=lead, trail=trail))
+        if m or f:
+            out.append(_J("sfloatvar", i=m, f=f, p=p, neg=True, trail=trail))
+    return out
+
+
+def _rot(lst, k):
+    k %= max(1, len(lst))
+    return lst[k:] + lst[:k]
+
+
+def history_magnitudes(rng):
+    """boundary magnitudes of every class: one septet (all), first septet with / without bit 6 for 2..5 septets, low septets
+    zero, the limits, random members of every class"""
+    ms = set(range(0, 131)) | {U_MAX, U_MAX - 1, S_MAX, S_MAX - 1, S_MAX + 1}
+    for n in range(2, 6):
+        lo = 128 ** (n - 1)
+        for first in (1, 0x3F, 0x40, 0x41, 0x7F):
+            base = first * lo
+            ms |= {base, base + 1, base + lo - 1, base + 64 * (lo // 128) if n > 1 else base}
+            for _ in range(3):
+                ms.add(base + rng.randrange(lo))
+    for b in (13, 14, 20, 21, 27, 28, 31):
+        ms |= {2**b - 1, 2**b, 2**b + 1}
+    return sorted(m for m in ms if 0 <= m <= U_MAX)
+
+
+def history_deterministic_cases(ctx: Ctx):
+    rng = ctx.rng("history-magnitudes")
+    out = []
+    mags = history_magnitudes(rng)
+    for k, m in enumerate(mags):
+        p = 1 + k % 3
+        f = [1, 64, 127, 128, 129, 16383, 5][k % 7] % 128**p
+        _, refused = int_sibling_calls(m, f, p)
+        kinds = judged_steps(m, f, p) + [refused[(k + j * 5) % len(refused)] for j in range(3)]
+        # the same fraction NUMBER under another precision (f/128^p2: a different value with the same septets' worth of key)
+        p2 = p % 3 + 1
+        if 0 < f < 128**p2:
+            kinds += [st_ for st_ in judged_steps(m, f, p2) if st_["sub"] in (("ufloatvar",) if k % 2 else ("sfloatvar",))][:2]
+        # every ordered pair (a before b, also a before a) of the kinds of step on this magnitude: the list followed by itself
+        out.append(({"steps": _rot(kinds, k) + _rot(kinds, k)}, "all_ordered_pairs_on_one_magnitude"))
+    # related magnitudes: bit 6 of the first septet toggled, one septet more / less, neighbours
+    for k, m in enumerate(mags[::3]):
+        n = R.n_uint_septets(m)
+        for j, rel in enumerate((m ^ (0x40 << (7 * (n - 1))), (m << 7) & U_MAX, m >> 7, m + 1)):
+            if rel != m and 0 <= rel <= U_MAX and (k + j) % 2 == 0:
+                a, b = judged_steps(m, 1, 1), judged_steps(rel, 1, 1)
+                out.append(({"steps": _rot(a, k) + _rot(b, j) + _rot(a, k + 1)}, "related_magnitudes"))
+    # coordinates: the same number through both writers, both orders; date-times: the same instant in the three forms
+    for k, a in enumerate(EDGE_LAT + [12345678, 33333333, 77777777, 60000000]):
+        b = EDGE_LON[k % len(EDGE_LON)]
+        ok, refused = latlon_sibling_calls(a, b)
+        steps = [_J("latlon", lat=a, lon=b), _J("latlon", lat=a, lon=a), refused[k % len(refused)], ok[k % len(ok)]]
+        if b <= LAT_MAX:
+            steps.append(_J("latlon", lat=b, lon=a))
+        steps += [_J("latlon", lat=(a + 45 * 10**6) % (LAT_MAX + 1), lon=(a + 180 * 10**6) % (LON_MAX + 1)), _J("latlon", lat=a, lon=b)]
+        out.append(({"steps": _rot(steps, k) + steps}, "coordinates_through_both_writers"))
+    for k, day in enumerate(BOUNDARY_DAYS + [(k * 7919) % N_DAYS for k in range(1, 20)]):
+        sec = BOUNDARY_SECS[k % len(BOUNDARY_SECS)] if k < 12 else (k * 104729) % 86400
+        c = _dt_case(day, sec, "str")
+        ok, refused = infotime_sibling_calls(c["dt"], "str")
+        forms = [_J("infotime", dt=c["dt"], form=fm) for fm in _rot(FORMS, k)]
+        other = _dt_case((day + 1) % N_DAYS, (sec + 3600) % 86400, FORMS[k % 3])
+        steps = forms + [refused[k % len(refused)], _J("infotime", **other), ok[k % len(ok)]] + _rot(forms, 1)
+        out.append(({"steps": steps}, "one_instant_in_three_forms"))
+    return out
+
+
+def _history_strategy():
+    from hypothesis import strategies as st
+
+    septet = st.one_of(st.sampled_from([0, 0, 1, 0x40, 0x7F]), st.integers(0, 127))
+
+    @st.composite
+    def history(draw):
+        pool = [draw(st_septet_value(U_MAX))]
+        for _ in range(draw(st.integers(0, 2))):
+            m = pool[draw(st.integers(0, len(pool) - 1))]
+            n = R.n_uint_septets(m)
+            rel = draw(st.sampled_from(["toggle_bit6", "shift_up", "shift_down", "plus_1", "fresh", "low_half"]))
+            v = {"toggle_bit6": m ^ (0x40 << (7 * (n - 1))), "shift_up": (m << 7) & U_MAX, "shift_down": m >> 7, "plus_1": min(U_MAX, m + 1), "low_half": m & S_MAX}.get(rel)
+            pool.append(draw(st_septet_value(U_MAX)) if v is None else v if 0 <= v <= U_MAX else v & S_MAX)
+        steps = []
+        for _ in range(draw(st.integers(2, 12))):
+            m = pool[draw(st.integers(0, len(pool) - 1))]
+            p = draw(st.integers(1, 3))
+            fs = draw(st.lists(septet, min_size=3, max_size=3))
+            f = 0
+            for s_ in fs[:p]:
+                f = (f << 7) | s_
+            if draw(st.integers(0, 4)) == 0:
+                ok, refused = int_sibling_calls(m, f, p)
+                lst = refused if draw(st.booleans()) else ok
+                steps.append(lst[draw(st.integers(0, len(lst) - 1))])
+            else:
+                ks = judged_steps(m, f, p)
+                steps.append(ks[draw(st.integers(0, len(ks) - 1))])
+        return {"steps": steps}
+
+    @st.composite
+    def geo_time(draw):
+        steps = []
+        lat, lon = draw(st.integers(0, LAT_MAX)), draw(st.integers(0, LON_MAX))
+        day, sec = draw(st.integers(0, N_DAYS - 1)), draw(st.integers(0, 86399))
+        for _ in range(draw(st.integers(2, 8))):
+            k = draw(st.integers(0, 7))
+            if k == 0:
+                steps.append(_J("latlon", lat=lat, lon=lon))
+            elif k == 1:
+                steps.append(_J("latlon", lat=lon % (LAT_MAX + 1), lon=lat))
+            elif k == 2:
+                steps.append(_J("latlon", lat=lat, lon=lat))
+            elif k in (3, 4):
+                steps.append(_J("infotime", **_dt_case(day, sec, draw(st.sampled_from(FORMS)))))
+            elif k == 5:
+                steps.append(_J("infotime", **_dt_case((day + draw(st.integers(0, 1))) % N_DAYS, (sec + draw(st.sampled_from([0, 1, 60, 3600]))) % 86400, draw(st.sampled_from(FORMS)))))
+            else:
+                ok, refused = latlon_sibling_calls(lat, lon) if k == 6 else infotime_sibling_calls(_dt_case(day, sec, "str")["dt"], "str")
+                lst = refused if draw(st.booleans()) else ok
+                steps.append(lst[draw(st.integers(0, len(lst) - 1))])
+        return {"steps": steps}
+
+    return st.one_of(history(), history(), history(), geo_time())
+
+
+def _history_classes(c):
+    subs = [s_["sub"] for s_ in c["steps"] if "sub" in s_]
+    out = [f"steps_{min(len(c['steps']) // 4 * 4, 20)}+", "kinds_" + str(len(set(subs)))]
+    if any("x" in s_ for s_ in c["steps"]):
+        out.append("with_stimulus_steps")
+    seen_signed, hit = set(), False
+    for s_ in c["steps"]:
+        if "sub" not in s_:
+            continue
+        cc = s_["case"]
+        if s_["sub"] in ("sintvar", "sfloatvar"):
+            seen_signed.add(abs(cc["v"]) if "v" in cc else cc["i"])
+        elif s_["sub"] in ("uintvar", "ufloatvar") and (cc["v"] if "v" in cc else cc["i"]) in seen_signed:
+            hit = True
+    if hit:
+        out.append("unsigned_after_signed_on_same_magnitude")
+    return out
+
+
+def _drv_histories(ctx: Ctx, sub: SubCheck):
+    cases = history_deterministic_cases(ctx)
+
+    def work(ch, t: Tally):
+        for c, cls in ch:
+            ctx.run_case(sub.name, oracle_histories, c, t)
+            t.case(sub.name, nontrivial=True, cls="deterministic:" + cls)
+            for k in _history_classes(c):
+                t.cls(sub.name, k)
+        if ch:
+            t.sample(sub.name, ch[0][0])
+
+    ctx.shards(work, [cases[i::32] for i in range(32)])
+    ctx.tally.extra["history_deterministic_cases"] = len(cases)
+    strat = _history_strategy()
+
+    def rec(c, t: Tally):
+        t.case(sub.name, key=c, nontrivial=len([s_ for s_ in c["steps"] if "sub" in s_]) >= 2)
+        for k in _history_classes(c):
+            t.cls(sub.name, "random:" + k)
+
+    warm_hypothesis_constants()
+    ctx.shards(lambda i, t: ctx.hypothesis(sub.name, strat, oracle_histories, ctx.pick(100, 1000), tally=t, shard=i, record=rec), list(range(ctx.pick(16, 48))))
+
+NO_PRELUDE = False  # read by vp.core (Ctx.prelude_enabled) at every case
+
+
+def drv_histories(ctx: Ctx, sub: SubCheck):
+    """The cases of this sub-check are judged by a judge server (vp/isolate.py) that the framework's preludes - which run in the
+    calling process - cannot reach: judging a case "again after a prelude" would only repeat the first judgement.  The cases
+    carry their own stimulus steps instead, so preludes are switched off while this sub-check runs."""
+    global NO_PRELUDE
+    NO_PRELUDE = True
+    try:
+        _drv_histories(ctx, sub)
+    finally:
+        NO_PRELUDE = False
+
 SUBCHECKS = [
     SubCheck("uintvar", oracle_uintvar, drv_uintvar, "write_uintvar == canonical shortest; read_uintvar returns the value and consumes exactly the encoding"),
     SubCheck("sintvar", oracle_sintvar, drv_sintvar, "write_sintvar == canonical (sign in bit 6 of first septet); read_sintvar inverse"),
@@ -776,6 +1170,7 @@ SUBCHECKS = [
     SubCheck("latlon", oracle_latlon, drv_latlon, "write_latitude/longitude -> point-2d token -> from_bytes -> as_xml gives back the 6-decimal input"),
     SubCheck("infotime", oracle_infotime, drv_infotime, "write_infotime (datetime/str/int) -> info-time token -> as_xml gives back the 14-digit input"),
     SubCheck("mode_flags", oracle_mode_flags, drv_mode_flags, "all of the above again with MBXML.DEBUG on, after a failed / successful from_bytes(debug=True), and inside a debug parse"),
+    SubCheck("histories", oracle_histories, drv_histories, "sequences of the clauses above and of sibling / refused calls on shared magnitudes (signed then unsigned writer, both float writers, both coordinate writers, three date forms), each history in a process of its own"),
 ]
 
 
